@@ -31,6 +31,12 @@ type Tri[A, B, C any] struct {
 
 type Str interface{ String() string }
 
+// Object, Anything: NAMED interface types without methods.  They are named types of this package like any other
+// (distinct from any: `var x *Object = new(any)` does not compile).
+type Object interface{}
+
+type Anything any
+
 type Ptr *Item
 
 type Dict map[string]Item
